@@ -24,7 +24,10 @@ MODEL_CAP = 1500
 
 
 def cases(tier, seed):
-    return D.spec_cases(tier, seed, None, 330, 1800, "c01")
+    out = D.spec_cases(tier, seed, None, 330, 1800, "c01")
+    # appended classes of vlib/gen2.py (added after the generator freeze; see DESIGN.md 2.2)
+    from vlib import gen2
+    return out + gen2.appended(tier, seed, "c01", ['A1', 'A2', 'A3', 'A5'], 60, 400)
 
 
 def run_case(case):
